@@ -44,7 +44,7 @@ class Body:
 
     @property
     def placement(self):
-        return ("case" if self.in_case else "top") + ("-in-chunked" if self.chunked else "") + f"-file{min(self.fi, 1)}"
+        return self.top_tag + ("-case" if self.in_case else "-top") + ("-in-chunked" if self.chunked else "") + f"-file{min(self.fi, 1)}"
 
 
 def bodies(files) -> list[Body]:
@@ -152,6 +152,17 @@ def body_rules(ctx):
         "nested_case_redefined_field": (None, [f("zq1"), switch("zq1", case("1", body=[f("zq2"), f("zq2")]))]),
         "after_switch_required_after_case_optional": (None, [f("zq1"), switch("zq1", case("1", body=[f("zq2", optional="true")])), f("zq3")]),
         "after_switch_anything_after_case_dummy": (None, [f("zq1"), switch("zq1", case("1", body=[X("dummy", [("type", "char")], "1")])), f("zq3", optional="true")]),
+        "after_switch_required_after_first_case_optional": (None, [f("zq1"), switch("zq1", case("1", body=[f("zq2", optional="true")]),
+                                                                                            case("2", body=[f("zq4")])), f("zq3")]),
+        "after_switch_anything_after_first_case_dummy": (None, [f("zq1"), switch("zq1", case("1", body=[X("dummy", [("type", "char")], "1")]),
+                                                                                       case("2", body=[f("zq4")]), case("3")), f("zq3", optional="true")]),
+        "after_switch_required_after_middle_case_optional": (None, [f("zq1"), switch("zq1", case("1"), case("2", body=[f("zq2", optional="true")]),
+                                                                                        case(default=True, body=[f("zq4")])), f("zq3")]),
+        "length_ref_on_nonstring": (None, [length("zq0"), f("zq1", "char", length="zq0")]),
+        "length_ref_on_int": (None, [length("zq0"), f("zq1", "int", length="zq0")]),
+        "length_ref_on_struct": (None, [length("zq0"), f("zq1", S, length="zq0")] if S else None),
+        "length_ref_on_enum": (None, [length("zq0"), f("zq1", E, length="zq0")] if E else None),
+        "length_ref_on_blob": (None, [length("zq0"), f("zq1", "blob", length="zq0")]),
         "chunked_comment_after_dummy": (None, [X("chunked", [], None, None, [X("dummy", [("type", "char")], "1"), f("zq3")])]),
         "nested_chunked_break_ok_then_outside": (False, [X("chunked", [], None, None, [X("chunked", [], None, None, [f("zq1")]), X("break")]), X("break")]),
         "named_hardcoded_int_nonnumeric": (None, [f("zq1", "char", "abc")]),
